@@ -35,6 +35,7 @@ REQUIRED_OBS = ["heartbeats_compared", "timeout_resets_predicted_and_seen",
                 "never_answered_from_start", "all_answered_no_reset", "custom_configs",
                 "reset_after_previous_reset", "after_init_shutdown_cycle",
                 "after_a_failed_init_and_shutdown", "reset_after_a_refused_reconnection",
+                "reset_after_socket_closed_across_a_deadline",
                 "ticks_while_link_down", "heartbeats_after_a_skipped_tick", "chatter_frames",
                 "initialised_after_init_gave_up", "two_clients_in_one_process", "application_version_requests",
                 "tick_with_full_queue"]
@@ -206,6 +207,12 @@ def cases(tier, seed):
         if c["mode"] == "manager":
             c.update(interval=300.0, timeout=330.0)
         yield c
+    for gen in (4, 5):
+        for I, W, close_at, reopen_at in ((10.0, 13.0, 5.0, 20.0), (10.0, 13.0, 12.5, 13.5),
+                                          (300.0, 330.0, 100.0, 700.0), (1.0, 1.3, 0.5, 5.0)):
+            yield {"gen": gen, "mode": "manager", "k": "closed_window", "interval": I,
+                   "timeout": W, "close_at": close_at, "reopen_at": reopen_at,
+                   "pattern": [None]}
     # two clients alive at the same time (same or different generation), one of them possibly
     # shut down half-way
     for gens in ((5, 4), (4, 4), (5, 5)):
@@ -547,7 +554,67 @@ def run_duo(case):
     return viol, obs
 
 
+def run_closed_window(case):
+    """A HeartbeatManager used directly on a socket: the application closes the socket without
+    stopping the manager, a deadline falls into the closed window, the socket is opened again,
+    and the console never answers a heartbeat. Bounded progress: within two time-out periods
+    after the re-opening the silent link is reset and re-established."""
+    gen = case["gen"]
+    I, W = case["interval"], case["timeout"]
+    viol, obs, out = [], {}, {}
+
+    async def main(loop, net, log):
+        w = SockWorld(gen, loop, net, log)
+        await w.open()
+        if gen == 4:
+            import pyairtouch.at4.comms.x1F_ext as e
+            import pyairtouch.at4.comms.x1FFF30_console_ver as ver
+        else:
+            import pyairtouch.at5.comms.x1F_ext as e
+            import pyairtouch.at5.comms.x1FFF30_console_ver as ver
+
+        def match(m):
+            return isinstance(m, e.ExtendedMessage) and \
+                m.sub_message.message_id == ver.MESSAGE_ID
+        mgr = hb.HeartbeatManager(loop, w.sock, hb.HeartbeatConfig(
+            message=e.ExtendedMessage(ver.ConsoleVersionRequest()), response_match=match,
+            interval=I, timeout=W))
+        t0 = loop.time()
+        await mgr.start()
+        await asyncio.sleep(case["close_at"])
+        await w.sock.close()
+        await asyncio.sleep(case["reopen_at"] - case["close_at"])
+        m = log.mark()
+        await w.sock.open_socket()
+        await quiesce(loop)
+        c1 = net.current()
+        await asyncio.sleep(2.0 * W + 1.0)
+        await quiesce(loop)
+        ev = log.since(m)
+        out["closes"] = [t - t0 for _, t, k, d in ev if k == "NET.close" and not d["fault"]]
+        out["opens"] = [t - t0 for _, t, k, d in ev if k == "NET.open"]
+        out["reconnected"] = net.current() is not None and net.current() is not c1
+        out["c1"] = c1 is not None
+        await mgr.stop()
+        await w.close()
+
+    _, log, st = H.run(main)
+    info = {"gen": gen, "interval": I, "timeout": W, "close_at": case["close_at"],
+            "reopen_at": case["reopen_at"]}
+    if st != "ok" or not out.get("c1"):
+        viol.append({"mechanism": "heartbeat-scenario-did-not-run", "detail": dict(info, st=st)})
+    elif not out["closes"] or not out["reconnected"]:
+        viol.append({"mechanism": "no-reset-after-heartbeat-timeout",
+                     "detail": dict(info, resets_seen=out["closes"], opens=out["opens"],
+                                    after="socket closed across a deadline and re-opened")})
+    else:
+        obs["reset_after_socket_closed_across_a_deadline"] = 1
+    return viol, obs
+
+
 def run_manager(case):
+    if case.get("k") == "closed_window":
+        return run_closed_window(case)
     gen = case["gen"]
     I, W, pattern = case["interval"], case["timeout"], case["pattern"]
     viol, obs = [], {}
